@@ -36,8 +36,16 @@ MAX_DEGREE_NOTE = 4
 
 def r_regex_ambiguity(model, rep, tier):
     sites = facts.regex_sites(model)
-    if len(sites) < 25:
-        raise AnalysisError("vacuity guard: regex inventory has %d patterns (floor 25)" % len(sites))
+    if len(sites) < 12:
+        raise AnalysisError("vacuity guard: regex inventory has %d patterns (floor 12)" % len(sites))
+    for s in sites:
+        if s.dynamic == "unescaped":
+            rep.ob("R-REGEX-INVENTORY", s.key, False, site=s.site,
+                   msg="the pattern %s is built from run-time data without re.escape(): whoever controls that data controls the "
+                       "pattern, so matching cost is unbounded (and the pattern cannot be analysed)" % s.pattern)
+        elif s.dynamic == "escaped":
+            rep.note("pattern at %s contains re.escape()d run-time data; analysed with the escaped part replaced by a literal" % s.site)
+    sites = [s for s in sites if s.dynamic != "unescaped"]
     pats = sorted(set(s.pattern for s in sites))
     U = rx.universe(pats)
     results = {}
@@ -125,6 +133,52 @@ def r_no_unbounded(model, rep):
                 ok, msg = False, "recursion on the input in a validator/parser (line %s)" % rec[0].lineno
         rep.ob("R-NO-UNBOUNDED", f.qname, ok, site=f.module.site(f.node), msg=msg)
     rep.floor("R-NO-UNBOUNDED", 60)
+
+
+def r_stateless(model, rep, funcs=None):
+    """parsers/formatters are functions of their arguments: no global statement, no mutation of module-level objects, no
+    caching decorator, and no result object that is shared between calls"""
+    if funcs is None:
+        funcs = []
+        for mod, cls, name in PARSERS:
+            funcs.append(model.own_method("%s.%s" % (mod, cls), name) if cls else model.function(mod, name))
+    for f in funcs:
+        cx = facts.fctx(model, f)
+        bad = []
+        for node in ast.walk(f.node):
+            if isinstance(node, (ast.Global, ast.Nonlocal)):
+                bad.append("line %s: global/nonlocal statement" % node.lineno)
+        for dec in f.node.decorator_list:
+            d = dotted(dec.func if isinstance(dec, ast.Call) else dec) or "?"
+            if d not in ("staticmethod", "classmethod", "property"):
+                bad.append("decorator @%s (results may be cached and shared between calls)" % d)
+        for ev in cx.events:
+            tgt = None
+            if ev.kind in ("store", "del") and ev.target is not None:
+                tgt = ev.target
+            elif ev.kind == "call" and ev.value[1][0] == "attr" and ev.value[1][2] in (
+                    "setdefault", "update", "append", "add", "pop", "clear", "extend", "insert", "remove", "popitem", "discard"):
+                tgt = ev.value[1][1]
+            elif ev.kind == "call" and ev.value[1][0] == "global" and "." in ev.value[1][1] and ev.value[1][1].rsplit(".", 1)[1] in (
+                    "setdefault", "update", "append", "add", "pop", "clear", "extend", "insert", "remove", "popitem", "discard"):
+                head = ev.value[1][1].rsplit(".", 1)[0]
+                if model.resolve_name(f.module, head.split(".")[0]) and not head.startswith(("re.", "os.", "six.", "warnings.")):
+                    bad.append("line %s: %s() mutates a module-level object" % (ev.lineno, ev.value[1][1]))
+            if tgt is not None:
+                r = tgt
+                while r[0] in ("attr", "sub", "idx", "elem"):      # not through calls: a call result is a fresh object
+                    r = r[1]
+                if r[0] == "global" and not r[1].startswith(("re.", "os.", "six.")):
+                    bad.append("line %s: writes to module-level %s" % (ev.lineno, T.show(tgt)[:60]))
+            # returning / reading a module-level mutable container element as the result
+            if ev.kind == "return" and ev.value is not None:
+                for x in T.walk(ev.value):
+                    if x[0] == "sub" and x[1][0] == "global" and f.module.assigns.get(x[1][1].split(".")[-1]) and \
+                            isinstance(f.module.assigns[x[1][1].split(".")[-1]][-1].value, (ast.Dict, ast.List, ast.Call)) and \
+                            x[1][1] not in ("COMPOSE_TYPE_SUFFIXES",):
+                        bad.append("line %s: returns an element of the module-level container %s" % (ev.lineno, x[1][1]))
+        rep.ob("R-STATELESS", f.qname, not bad, site=cx.site(f.node),
+               msg="" if not bad else "the function is not a pure function of its arguments: %s" % "; ".join(sorted(set(bad))[:3]))
 
 
 @register("C19")
@@ -287,6 +341,7 @@ def check_c13(model, rep, tier):
     r_nvra_glue(model, rep)
     r_nevra_format(model, rep)
     r_opt_deref(model, rep, only=["common.parse_nvra"])
+    r_stateless(model, rep, [model.function("common", "parse_nvra"), model.own_method("rpms.Rpms", "_check_nevra")])
     rep.extra["exhaustive"] = True
 
 
@@ -409,6 +464,9 @@ def check_c14(model, rep, tier):
     pats, U = r_pred_lang(model, rep)
     r_pred_wiring(model, rep)
     r_types_table(model, rep, pats, U)
+    r_stateless(model, rep, [model.function("common", n) for n in (
+        "is_valid_release_short", "is_valid_release_version", "is_valid_release_type", "create_release_id", "parse_release_id",
+        "_parse_release_id_part", "split_version")])
     rep.extra["exhaustive"] = True
 
 
@@ -463,12 +521,58 @@ def r_suffix_tables(model, rep):
     return table
 
 
+def applied_regex(model, fref):
+    """the regular expression a function applies to its argument: (pattern, method, call event).  The pattern may be
+    compiled in the function or be a module-level constant."""
+    from ..model import RegexConst, NotConst
+    cx = facts.fctx(model, fref)
+    found = []
+    for ev in cx.events:
+        if ev.kind != "call":
+            continue
+        f = ev.value[1]
+        meth = None
+        pat = None
+        if f[0] == "attr" and f[2] in ("match", "search", "fullmatch"):
+            meth = f[2]
+            recv = T.unwrap(f[1])
+            if recv[0] == "call" and recv[1] == ("global", "re.compile") and recv[2] and recv[2][0][0] == "const":
+                pat = recv[2][0][1]
+            else:
+                try:
+                    v = cx.const_of(recv)
+                    if isinstance(v, RegexConst):
+                        pat = v.pattern
+                except NotConst:
+                    pass
+        elif f[0] == "global" and f[1] in ("re.match", "re.search", "re.fullmatch") and ev.value[2] and ev.value[2][0][0] == "const":
+            meth = f[1][3:]
+            pat = ev.value[2][0][1]
+        elif f[0] == "global" and f[1].endswith((".match", ".search", ".fullmatch")):
+            meth = f[1].rsplit(".", 1)[1]
+            try:
+                v = cx.const_of(("global", f[1].rsplit(".", 1)[0]))
+                if isinstance(v, RegexConst):
+                    pat = v.pattern
+            except NotConst:
+                pass
+        if meth and pat is not None:
+            found.append((pat, meth, ev))
+    return found
+
+
 def decoder_pattern(model):
     f = model.function("composeinfo", "get_date_type_respin")
-    pats = facts.function_regexes(model, f)
-    if len(pats) != 1:
-        raise AnalysisError("get_date_type_respin: expected exactly one pattern, found %d" % len(pats))
-    return pats[0][0], f
+    found = applied_regex(model, f)
+    if len(found) != 1:
+        raise AnalysisError("get_date_type_respin: expected exactly one applied regular expression, found %d" % len(found))
+    pat, meth, ev = found[0]
+    if meth == "search":
+        # search = match with a lazy scan for the leftmost starting position
+        pat = "(?:.|\\n)*?(?:" + pat.lstrip("^") + ")" if not pat.startswith("^") else pat
+    elif meth == "fullmatch" and not pat.endswith("$"):
+        pat = "(?:" + pat + ")$"
+    return pat, f
 
 
 def encoder_grammar(table, respin):
@@ -583,10 +687,10 @@ def r_cid_glue(model, rep):
     rep.ob("R-DECODE-GLUE", "get_date_type_respin:unknown-suffix-refused", bool(unk), site=cx.site(f.node),
            msg="" if unk else "an unknown type suffix no longer raises ValueError")
     # uses .match (anchored at the start)
-    m = [ev for ev in cx.events if ev.kind == "call" and ev.value[1][0] == "attr" and ev.value[1][2] in ("match", "search", "fullmatch")]
-    ok = bool(m) and m[0].value[1][2] == "match" and m[0].value[2] == (("param", cx.params[0]),)
-    rep.ob("R-DECODE-GLUE", "get_date_type_respin:match-call", ok, site=cx.site(f.node),
-           msg="" if ok else "decoder must apply pattern.match() to its argument")
+    found = applied_regex(model, f)
+    ok = len(found) == 1 and found[0][2].value[2][-1] == ("param", cx.params[0])
+    rep.ob("R-DECODE-GLUE", "get_date_type_respin:applies-pattern-to-argument", ok, site=cx.site(f.node),
+           msg="" if ok else "decoder must apply its pattern to its argument")
 
 
 def r_cid_format(model, rep):
@@ -709,4 +813,6 @@ def check_c15(model, rep, tier):
     r_cid_glue(model, rep)
     r_cid_format(model, rep)
     r_legacy_compose(model, rep)
+    r_stateless(model, rep, [model.function("composeinfo", "get_date_type_respin"), model.own_method("composeinfo.ComposeInfo", "create_compose_id"),
+                             model.own_method("composeinfo.Compose", "type_suffix"), model.own_method("composeinfo.BaseProduct", "type_suffix")])
     rep.extra["exhaustive"] = True
